@@ -204,7 +204,7 @@ def handle1 (args : List String) : String :=
   | "padconv" :: a =>
     let cv : Linalg.OptConst Int := match getS a "cv" with
       | "-" => .absent | "n" => .dynamic | s => ((s.toInt?).map .const).getD .dynamic
-    let p : Linalg.PadConv := { xRank := (getOptInt a "rank").map Int.toNat, mode := (kv a "mode").bind (fun m => if m == "-" then none else some m), pads := parseOptConstInts (getS a "pads"), constantValue := cv, cvIsZero := getS a "cvz" != "0", axes := parseOptConstInts (getS a "axes"), autoPad := getS a "autopad", convPads := getOptInts a "cpads", nonzeroZeroPoint := getBool a "zp" }
+    let p : Linalg.PadConv := { xRank := (getOptInt a "rank").map Int.toNat, mode := (kv a "mode").bind (fun m => if m == "-" then none else some m), pads := parseOptConstInts (getS a "pads"), constantValue := cv, cvIsZero := getS a "cvz" != "0", axes := parseOptConstInts (getS a "axes"), autoPad := getS a "autopad", convPads := getOptInts a "cpads", zeroPoint := (match getS a "zp" with | "-" => .absent | "n" => .dynamic | t => ((t.toInt?).map .const).getD .dynamic) }
     (match Linalg.padConvRun p with
      | .nofire => "nofire" | .raises => "raise"
      | .fire pads => s!"fire pads={showInts pads} hyp=1")
